@@ -17,6 +17,22 @@ CLAIMED = {
             "decides guard presence/shape, not which exception type torch raises for delegated cases; domain assumption "
             "d >= 1; RAISE-TABLE is a frozen table confirmed by reading (89 entries)",
             "DESIGN.md section 4 C18"),
+    "C01": ("truncation-allowance normal forms (rational-exponent monomials over eps, ||s||, d) traced interprocedurally, "
+            "decision-table check of the rank selector, def-use rule for the rmax cap, orientation rule for the SVD wrapper",
+            "Clause level: decides the premises of the TT-SVD error theorem that are visible in the code (per-bond allowance "
+            "eps*||s||/sqrt(d-1) with the constructor's eps; rank decision total over the orderings of (discarded energy, "
+            "threshold) and minimal; all three SVD factors cut at min(rank_chop, rmax); SVD wrapper returns factors of its "
+            "argument in both branches). Loosening edits fire, tightening edits pass.",
+            "does not decide the floating-point inequality, SVD library accuracy, or 'rank <= exact unfolding rank' beyond "
+            "minimality of the selector",
+            "DESIGN.md section 4 C01, section 3 E4"),
+    "C02": ("must-pass-through / def-use rule for orthogonalise-then-truncate, sweep-direction rule, truncation-allowance "
+            "normal forms, rmax cap rule, effect analysis for operand intactness",
+            "Clause level: decides the premises of the TT-rounding bound (orthogonalisation dominates and feeds the truncating "
+            "sweep; opposite sweep directions over all bonds; both rank_chop sites use eps*||S||/sqrt(d-1) with TT.round's "
+            "eps; ranks capped; operand not written).",
+            "does not decide the eps bound in floating point nor QR/SVD accuracy",
+            "DESIGN.md section 4 C02"),
     "C06": ("interprocedural alias/mutation effect analysis (origins of tensors, views and lists; bottom-up summaries "
             "over the resolved call graph; who-may-write rule against the documented in-place API)",
             "For every public entry point and every parameter the summary must contain no in-place tensor write, "
